@@ -245,9 +245,20 @@ func runC07(p *core.Prog, r *core.Report) {
 
 	// ---- R3
 	isWG := func(c ssa.CallInstruction, m string) bool {
-		return sx.CalleeName(c) == "(*sync.WaitGroup)."+m && sx.Origins(sx.Args(c)[0])[t.fieldKey(t.WG)]
+		if sx.CalleeName(c) != "(*sync.WaitGroup)."+m {
+			return false
+		}
+		recv := sx.Args(c)[0]
+		if fa, ok := recv.(*ssa.FieldAddr); ok { // a value field: its address is the receiver
+			return sx.FieldOf(fa) == t.WG
+		}
+		return sx.Origins(recv)[t.fieldKey(t.WG)]
 	}
-	for _, body := range []*ssa.Function{t.Queue, t.Worker} {
+	for _, body := range []*ssa.Function{t.QueueEntry, t.WorkerEntry} {
+		if explicitDoneOK(p, t, body, isWG) {
+			r.OK("C07-R3", fnName(body)+": wg.Done deferred first", p.FuncPos(body), "wg.Done() is called exactly once on every path to a return of a goroutine that runs no task code (no panic can skip it)")
+			continue
+		}
 		ok, why := false, "no `defer wg.Done()` in the entry block"
 		for _, in := range body.Blocks[0].Instrs {
 			if d, isD := in.(*ssa.Defer); isD && isWG(d, "Done") {
@@ -316,7 +327,7 @@ func runC07(p *core.Prog, r *core.Report) {
 			}
 		})
 		body := sx.StaticCallee(g)
-		counted := sameFn(body, t.Queue) || sameFn(body, t.Worker)
+		counted := t.GoRole[g] != "" || sameFn(body, t.Queue) || sameFn(body, t.Worker) || sameFn(body, t.QueueEntry) || sameFn(body, t.WorkerEntry)
 		ok := !counted || (len(cut.Instrs) > 0 && sx.MustPass(fn, nil, g, cut))
 		r.Check(ok, "C07-R3", "go statement in "+fnName(fn)+" is counted", p.Pos(g.Pos()), "Add(1) precedes the go statement", "a goroutine running "+fnName(body)+" (which calls wg.Done) is started without wg.Add(1): the counter reaches zero while a worker is still running and Wait returns early")
 	}
@@ -351,7 +362,7 @@ func runC07(p *core.Prog, r *core.Report) {
 		name string
 		pred func(a sx.Arm) bool
 	}{
-		{t.Worker, "worker: task receives are behind a Done check", func(a sx.Arm) bool {
+		{t.WorkerLoop, "worker: task receives are behind a Done check", func(a sx.Arm) bool {
 			if a.State == nil || a.State.Dir != types.RecvOnly {
 				return false
 			}
@@ -412,7 +423,8 @@ func (t *tlInfo) canonCount(v ssa.Value) ssa.Value {
 		}
 		var found ssa.Value
 		n := 0
-		for _, f := range []*types.Var{t.Buffered, t.Blocking} {
+		cands := append([]*types.Var{t.Buffered, t.Blocking}, t.Containers...)
+		for _, f := range cands {
 			if f == nil || !sx.Origins(arg)[t.fieldKey(f)] {
 				continue
 			}
@@ -437,6 +449,57 @@ func (t *tlInfo) canonCount(v ssa.Value) ssa.Value {
 		v = found
 	}
 	return v
+}
+
+// explicitDoneOK: a goroutine entry that calls wg.Done() explicitly instead of deferring it is as good when nothing it
+// runs can panic past the call — it invokes no task and no function value — and every path to a return passes exactly
+// one wg.Done().
+func explicitDoneOK(p *core.Prog, t *tlInfo, body *ssa.Function, isWG func(ssa.CallInstruction, string) bool) bool {
+	dones := map[ssa.Instruction]bool{}
+	risky := false
+	for _, f := range viewFuncs(p, body) {
+		sx.Instrs(f, func(in ssa.Instruction) {
+			c, ok := in.(ssa.CallInstruction)
+			if !ok {
+				return
+			}
+			if _, isDefer := c.(*ssa.Defer); isDefer {
+				if isWG(c, "Done") {
+					risky = true // deferred: the ordinary rule applies
+				}
+				return
+			}
+			if call, isCall := c.(*ssa.Call); isCall && isWG(call, "Done") && f == body {
+				dones[in] = true
+				return
+			}
+			if t.isStart(c) {
+				risky = true
+			}
+			if _, isB := c.Common().Value.(*ssa.Builtin); !isB && !c.Common().IsInvoke() && sx.StaticCallee(c) == nil {
+				risky = true // a function value: unknown code
+			}
+		})
+	}
+	if risky || len(dones) == 0 {
+		return false
+	}
+	w := sx.Weights{Instr: func(in ssa.Instruction) sx.Range {
+		if dones[in] {
+			return sx.Range{Min: 1, Max: 1}
+		}
+		return sx.Range{}
+	}}
+	res := sx.Count(body, body.Blocks[0], w, nil)
+	n := 0
+	for _, ret := range sx.Returns(body) {
+		rg, ok := res.Before(ret)
+		if !ok || !rg.Is(1) {
+			return false
+		}
+		n++
+	}
+	return n > 0
 }
 
 // checkAddCount compares the wg.Add calls of the constructor with the go
@@ -558,7 +621,11 @@ func runC08(p *core.Prog, r *core.Report) {
 		var workerGos []*ssa.Go
 		var elsewhere []string
 		for _, g := range t.GoSites {
-			if !sameFn(sx.StaticCallee(g), t.Worker) {
+			if role, known := t.GoRole[g]; known {
+				if role != "worker" {
+					continue
+				}
+			} else if !sameFn(sx.StaticCallee(g), t.Worker) {
 				continue
 			}
 			workerGos = append(workerGos, g)
@@ -654,7 +721,7 @@ func runC08(p *core.Prog, r *core.Report) {
 		r.Check(ok, "C08-R2", who+": blocking select "+verb+" own lane and shared channel", p.FuncPos(fn), best, "the blocking hand-over select of the "+who+" does not cover both the lane's own channel and the shared channel ("+best+"): a task waits behind a busy worker while another worker is idle")
 	}
 	wiring(t.Queue, types.SendOnly, "queue goroutine")
-	wiring(t.Worker, types.RecvOnly, "worker goroutine")
+	wiring(t.WorkerLoop, types.RecvOnly, "worker goroutine")
 	// shared channel: one object, made once, unbuffered
 	{
 		n := 0
